@@ -35,7 +35,7 @@ RULE = (
     "of the clean output, and a clean call on the same closure follows. (3) Schedules: 2-3 threads with drawn "
     "create/use programs start from cold caches under a deterministic line-granularity scheduler (sys.settrace in "
     "src/kio, token passing); the interleaving is a drawn list of <=3 preemptions (global step, target thread); "
-    "additionally ONE preemption is swept over EVERY step of fixed two/three-thread programs (warm and cold caches, two different values of one class) exhaustively, and EVERY PAIR of preemptions (park thread 0 at k1, park thread 1 at k2, resume 0, then 1) is swept over a warm two-thread program whose values hold multi-item arrays. EVERY PAIR of preemption points is also swept over the COLD construction of two readers by two threads (RequestHeader v2 and a class with compact strings), the closures being used afterwards. One preemption is also swept over the COLD construction-and-use of two values of the SAME class by two threads, for the tag-bearing messages and the classes with nullable struct fields. Additionally one preemption is swept over every step of thread 0 working on class X while thread 1 works on a DIFFERENT class Y (warm encode and decode), for consecutive pairs of a greedy cover of small classes that together contain every field kind (plain, array, tagged), a nullable struct and nested struct arrays. (4) Orders: in 16 (quick) / 48 (thorough) fresh processes the readers and writers of ALL 1629 classes are created and used in a different order (forward, reverse, all nested structs first, all top-level classes first, seeded shuffles); per class up to 12 fixed calls (decode of a populated, a zero, a conforming explicit-default/explicit-null and up to three null-in-non-nullable encodings; encode of the corresponding instances) must have the same outcome (value or exception type) in every order; a difference is bisected to the earlier class that causes it. (5) Repetition: for 40 classes (the 13 tag-bearing messages first; each also goes big/small/big/small through one cached closure, the big value having 9000-byte strings and 400-item tagged arrays) one cached writer and one cached reader are called 10000 (quick) / 300000 (thorough) times each on a populated value; every result must equal the reference encoding / the value; and for 6 classes 70000 (quick) / 600000 (thorough) DISTINCT values (every string, bytes, uuid and wide integer unique) go through one reader/writer pair, each must re-encode to its reference bytes, and the first 64 are decoded again afterwards. Volume: while one thread is parked in the middle of a decode, another decodes and encodes a 64 MiB message until more than 2^31 (thorough: 2^32 + 2^30) bytes went each way; every round is compared in full. Non-trivial = history with a failed call "
+    "additionally ONE preemption is swept over EVERY step of fixed two/three-thread programs (warm and cold caches, two different values of one class) exhaustively, and EVERY PAIR of preemptions (park thread 0 at k1, park thread 1 at k2, resume 0, then 1) is swept over a warm two-thread program whose values hold multi-item arrays. EVERY PAIR of preemption points is also swept over the COLD construction of two readers by two threads (RequestHeader v2 and a class with compact strings), the closures being used afterwards. One preemption is also swept over the COLD construction-and-use of two values of the SAME class by two threads, for the tag-bearing messages and the classes with nullable struct fields. Additionally one preemption is swept over every step of thread 0 working on class X while thread 1 works on a DIFFERENT class Y (warm encode and decode), for consecutive pairs of a greedy cover of small classes that together contain every field kind (plain, array, tagged), a nullable struct and nested struct arrays. (4) Orders: in 16 (quick) / 48 (thorough) fresh processes the readers and writers of ALL 1629 classes are created and used in a different order (forward, reverse, all nested structs first, all top-level classes first, seeded shuffles); per class up to 12 fixed calls (decode of a populated, a zero, a conforming explicit-default/explicit-null and up to three null-in-non-nullable encodings; encode of the corresponding instances) must have the same outcome (value or exception type) in every order; a difference is bisected to the earlier class that causes it. (5) Repetition: for 40 classes (the 13 tag-bearing messages first; each also goes big/small/big/small through one cached closure, the big value having 9000-byte strings and 400-item tagged arrays) one cached writer and one cached reader are called 10000 (quick) / 300000 (thorough) times each on a populated value; every result must equal the reference encoding / the value; and for 6 classes 70000 (quick) / 600000 (thorough) DISTINCT values (every string, bytes, uuid and wide integer unique) go through one reader/writer pair, each must re-encode to its reference bytes, and the first 64 are decoded again afterwards. Cross-thread: calls fail part-way (injected I/O errors at several write and read positions) on a thread that stays alive, then another thread encodes and decodes the same value: pristine results required, and a call that makes no progress (same frame and instruction in two samples 2 s apart, after 20 s) is a violation. Volume: while one thread is parked in the middle of a decode, another decodes and encodes a 64 MiB message until more than 2^31 (thorough: 2^32 + 2^30) bytes went each way; every round is compared in full. Non-trivial = history with a failed call "
     "followed by a successful call on the same closure / fault k strictly inside the call / schedule with >=1 "
     "preemption landing inside entity_reader/entity_writer construction or read_entity/write_entity; distinct by hash."
 )
@@ -1349,6 +1349,105 @@ def flood(path: str, n: int, keep: int = 64) -> list[tuple[str, str]]:
         clear_caches()
 
 
+def failure_then_other_thread(path: str) -> list[tuple[str, str]]:
+    """A call fails part-way on thread A (which stays alive, like a pooled worker); then thread B encodes and decodes the
+    same value.  B's results must be the pristine ones - and B must get a result at all: a call that never returns
+    (a lock the failed call still owns) is reported when B shows NO PROGRESS (same frame, same instruction) in two samples
+    two seconds apart after a 20 s grace period, not on elapsed time alone."""
+    import sys
+    import threading
+    import time
+
+    from ..c19_orders import populated_tree
+
+    cd = D.describe(D.resolve(path))
+    tree = populated_tree(cd, 2, 0)
+    data = ref_encode(cd, tree)
+    value = to_entity(cd, tree)
+    out: list = []
+    clear_caches()
+    release = threading.Event()
+    failed = threading.Event()
+
+    def thread_a():
+        n_writes = len(RecordingSink_chunks(cd, value))
+        for k in sorted({0, 1, 2, n_writes // 2, max(n_writes - 1, 0)}):
+            try:
+                K.entity_writer(cd.cls)(FaultySink(k, InjectedFault("connection reset")), value)
+            except InjectedFault:
+                pass
+            except Exception:
+                pass
+        for k in (0, 1, 3):
+            try:
+                K.entity_reader(cd.cls)(FaultySource(data, k, InjectedFault("connection reset")))
+            except InjectedFault:
+                pass
+            except Exception:
+                pass
+        failed.set()
+        release.wait(120)  # stays alive while B works
+
+    result: dict = {}
+
+    def thread_b():
+        try:
+            result["enc"] = K.encode(cd.cls, value)
+            result["dec"] = K.decode(cd.cls, data)
+        except Exception as e:  # noqa: BLE001
+            result["exc"] = e
+
+    a = threading.Thread(target=thread_a, daemon=True)
+    a.start()
+    if not failed.wait(60):
+        release.set()
+        raise HarnessError("failure_then_other_thread: thread A did not finish its failing calls")
+    b = threading.Thread(target=thread_b, daemon=True)
+    b.start()
+    b.join(20)
+    if b.is_alive():
+        def where():
+            fr = sys._current_frames().get(b.ident)
+            return None if fr is None else (id(fr), fr.f_lasti, f"{fr.f_code.co_filename.rsplit('/', 2)[-1]}:{fr.f_lineno} in {fr.f_code.co_name}")
+        w1 = where()
+        time.sleep(2)
+        w2 = where()
+        if b.is_alive() and w1 is not None and w1 == w2:
+            out.append(("cross-thread:call-never-returns", f"{path}: after calls failed part-way on another (still living) thread, an encode/decode of the same value "
+                        f"on this thread makes no progress - blocked at {w1[2]}"))
+        release.set()
+        return out
+    release.set()
+    a.join(10)
+    if "exc" in result:
+        e = result["exc"]
+        out.append((f"cross-thread:raised:{K.exc_signature(e)}", f"{path}: after failed calls on another thread: {e!r:.300}"))
+        return out
+    if result.get("enc") != data:
+        out.append(("cross-thread:encode-differs", f"{path}: after failed calls on another thread the value encodes as {result.get('enc', b'').hex()[:200]}"))
+    got = result.get("dec")
+    if got is None or not py_equal(got[0], value) or got[1] != len(data):
+        out.append(("cross-thread:decode-differs", f"{path}: after failed calls on another thread the bytes decode as {got!r:.300}"))
+    return out
+
+
+def RecordingSink_chunks(cd, value) -> list:
+    sink = RecordingSink()
+    K.entity_writer(cd.cls)(sink, value)
+    return list(sink.chunks)
+
+
+def _cross_thread_worker(paths):
+    rep = Report(prop=ID, level="exploration", rule=RULE)
+    for path in paths:
+        rep.evaluations += 10
+        rep.nontrivial.add(case_hash(("cross-thread", path)))
+        for sig, msg in failure_then_other_thread(path):
+            rep.add_failure(Failure(sig, msg, {"kind": "cross-thread", "class": path}, 1))
+    rep.extra["counters"] = {"cross_thread_cases": len(paths)}
+    return rep
+
+
 VOLUME_CLASS_SMALL = "kio.schema.metadata.v12.request:MetadataRequest"
 
 
@@ -1536,6 +1635,16 @@ def run(ctx: Ctx) -> Report:
         _t[0] = now
     classes = D.quick_class_sample(ctx.seed, 60 if ctx.quick else 400)
     paths = [f"{c.__module__}:{c.__qualname__}" for c in classes]
+    # (0) a failed call on one thread, then use on another.  First, because a call that never returns would also stall the
+    # schedulers of the later stages (their time-outs are harness errors, never violations): if it is found here the run
+    # ends with this violation.
+    xt = list(dict.fromkeys(tag_bearing_messages() + paths))[: 16 if ctx.quick else 64]
+    for rep in pool_map(_cross_thread_worker, [xt[i::16] for i in range(16) if xt[i::16]]):
+        total.merge(rep)
+    lap("failure_then_other_thread")
+    if any(f.signature == "cross-thread:call-never-returns" for f in total.failures.values()):
+        total.extra["stage_seconds"] = stage_s
+        return total
     # (1) histories
     runs, steps = (160, 40) if ctx.quick else (2000, 50)
     groups = same_name_groups()
@@ -1615,6 +1724,8 @@ def replay(case):
         return repetition(case["class"], case["n"])
     if kind == "flood":
         return flood(case["class"], case["n"])
+    if kind == "cross-thread":
+        return failure_then_other_thread(case["class"])
     if kind == "volume":
         return volume_under_overlap(case["bytes"])[0]
     if kind == "order-self":
